@@ -91,6 +91,8 @@ for rg in ('reg', 'base'):
             ('unregister', rg, ('R0',), 'P', ''), ('unregister', rg, ('R1',), 'P1', ''),
             ('subscribe', rg, ('R0',), 'P', 'fd'), ('subscribe', rg, ('X',), 'P', 'fe'),
             ('unsubscribe', rg, ('R0',), 'P', 'fd'), ('unsubscribe', rg, ('R0',), 'P', None)]
+# a second value for a key used above: replaces what is registered, if anything is
+MUT += [('register', 'reg', ('R0',), 'P', '', 'fb'), ('register', 'base', ('R0',), 'P', '', 'fb')]
 for rg in ('reg', 'base'):
     MUT += [('subscribe', rg, ('R0',), 'NONE', 'fh'), ('unsubscribe', rg, ('R0',), 'NONE', 'fh')]
 MUT += [('register', 'reg', ('R0', 'Y'), 'P', '', 'fg'), ('ibases', 'Y1', ()), ('ibases', 'Y1', ('Y',))]
